@@ -63,8 +63,14 @@ def _convertible(t, env) -> bool:
     if t["t"] == "optional":
         return _convertible(t["of"], env)
     if t["t"] == "union":
-        return all(_convertible(x, env) or x["t"] == "none" for x in t["alts"])
+        # alternatives that can never accept a mutable container (None, scalars, enums, literals) do not matter
+        alts = [_expand(x, env) for x in t["alts"]]
+        rest = [(x, e) for x, e in alts if x["t"] not in _SCALAR_KINDS]
+        return bool(rest) and all(_convertible(x, e) for x, e in rest)
     return False
+
+
+_SCALAR_KINDS = {"none", "enum", "literal", "missing", *TT.NOMINAL}
 
 
 def _first_element_term(t, env):
@@ -503,6 +509,23 @@ def strategy(tier):
         (T_("seq", of=T_("map", k=T_("str"), v=T_("map", k=T_("str"), v=T_("int")))),
          lambda outer: V_(outer, items=[V_("dict", items=[[V_("str", x="a"), V_("dict", items=[[V_("str", x="b"), V_("int", x=1)]])]])])),
     ]  # fmt: skip
+    # the same with the inner container type hidden behind an optional / a union / an alias: the conversion promise is the
+    # same wherever the container annotation sits in the element type
+    def _wrapped(e, how):
+        if how == "optional":
+            return T_("optional", of=e)
+        if how == "union_scalar_first":
+            return T_("union", alts=[T_("str"), e])
+        if how == "union_none_last":
+            return T_("union", alts=[e, T_("none")], form="typing")
+        return T_("alias", of=e)
+
+    for term, mk in list(nested_templates):
+        for how in ("optional", "union_scalar_first", "union_none_last", "alias"):
+            if term["t"] == "seq":
+                nested_templates.append((T_("seq", of=_wrapped(term["of"], how)), mk))
+            elif term["t"] == "map" and term["v"]["t"] == "seq":
+                nested_templates.append((T_("map", k=term["k"], v=_wrapped(term["v"], how)), mk))
     # unions whose LATER alternative would keep a container as it is: the stored form must not depend on what was
     # constructed before (validators are shared per class)
     history_templates = [
